@@ -1,7 +1,10 @@
 /-
 Helper definitions and lemmas for property C04 (PolyTree construction).  The material is split over
 `OwnerTree` (rose-tree layer), `OwnerAcyclic` (owner graph), `OwnerStep` (table-level frame and function
-specifications), `OwnerInv` (state-level invariants, `recursiveCheckOwners`), `OwnerBuild` (outer loop).
+specifications), `OwnerInv` (state-level invariants, `recursiveCheckOwners`), `OwnerBuild` (outer loop),
+`OwnerClosed` (second frame: closure under owner/splits, `recursive_split` marks), `OwnerPerm` (`buildPaths` as
+`filterMap`, the permutation theorem), `OwnerFuel` / `OwnerTerm` / `OwnerTermTree` (termination measures and fuel
+sufficiency), `OwnerHyp` (soundness of the decidable hypothesis checks of `Model/OwnerHyp.lean`).
 -/
 import ClipperVerif.Lemmas.OwnerTree
 import ClipperVerif.Lemmas.OwnerAcyclic
@@ -9,3 +12,10 @@ import ClipperVerif.Lemmas.OwnerStep
 import ClipperVerif.Lemmas.OwnerInv
 import ClipperVerif.Lemmas.OwnerBuild
 import ClipperVerif.Lemmas.OwnerSetOwner
+import ClipperVerif.Lemmas.OwnerClosed
+import ClipperVerif.Lemmas.OwnerPerm
+import ClipperVerif.Lemmas.OwnerFuel
+import ClipperVerif.Lemmas.OwnerTerm
+import ClipperVerif.Lemmas.OwnerTermTree
+import ClipperVerif.Lemmas.OwnerHyp
+import ClipperVerif.Lemmas.OwnerDepth
